@@ -1,8 +1,11 @@
 mod engine;
 mod fcmp;
+mod net;
+mod refmodel;
 mod tape;
 mod tens;
 
+mod c02;
 mod c03;
 mod c06;
 mod c07;
@@ -66,6 +69,7 @@ fn main() {
     let out_dir = out_dir.unwrap_or_else(|| verif_dir.clone());
     let eng = Engine::new(&id, tier, seed, &verif_dir, &out_dir);
     let code = match id.as_str() {
+        "C02" => c02::run(&eng, replay.as_deref()),
         "C03" => c03::run(&eng, replay.as_deref()),
         "C06" => c06::run(&eng, replay.as_deref()),
         "C07" => c07::run(&eng, replay.as_deref()),
